@@ -210,6 +210,19 @@ PROPS = {
         "level_note": "trusted: Cycles.tla as the statement of the classical rules, TLC, harness enumeration; names enter only where the name is the attribute (Nayin element, star colour, first character of a Peng Zu sentence)",
         "technique": "TLA+ rule tables checked with TLC + exhaustive table comparison against the implementation",
     },
+    "C20": {
+        "title": "festival and legal-holiday lookups are consistent in both directions",
+        "mc": {"quick": [{"module": "MC_Festival", "cfg": "MC_Festival.cfg", "workers": 2}]},
+        "rule": "civil dates 1900-01-01..2100-12-31 (quick: the days around the ten festival dates + every 7th day; thorough: every date); civil festivals by index for 133 (quick) / all years 1..9998 with 9 step counts; "
+                "lunar years 13 fixed + 50 seeded (quick) / all 1900..2100 + 1,500 seeded (thorough): the movable anchors, all 14 indices, every (quick: selected) lunar date, stepping; all 821 legal-holiday records (raw table parsed by the harness), membership of civil dates 1999..2031, seeded multi-step moves. "
+                "Non-trivial: dates carrying a festival, founding-year edges, leap-month dates, records, steps",
+        "exhaustive": {"quick": False, "thorough": False},
+        "assumptions": ["the CONTENT of the legal-holiday table (which days are listed) is data: the raw pub static LEGAL_HOLIDAY_DATA is parsed by the harness as 13-character records and only its well-formedness and the lookups' agreement with it are judged",
+                        "term days and lunar dates are the implementation's own (C02, C06)"],
+        "level_text": "TLC checks the festival tables and the stepping carry of Festival.tla (MC_Festival) and validates the real code: the civil festival found on every date equals the table lookup and exists exactly from its founding year, festivals by index fall on their table day, the lunar festival found on a day is the earliest-listed one falling on it (fixed dates, Qingming and winter-solstice term days, New Year's Eve as last day of the year), stepping carries by floor division, every holiday record is a real date found for itself and for no other date, the record chain is strictly increasing in both directions, and every offset points at a rest day",
+        "level_note": "trusted: Festival.tla tables (transcribed independently), Civil.tla, TLC, harness parsing of the raw holiday table",
+        "technique": "TLA+ festival tables checked with TLC + trace validation of date->festival, index->festival, stepping and holiday-table lookups",
+    },
 }
 
 NOT_APPLICABLE = {}
